@@ -257,7 +257,7 @@ func TestReplay(t *testing.T) { kit.RunReplay(t) }
 var c10Soup = &gen.Profile{Name: "c10", Extra: []string{"  \n", "\\\n", "\n", "\n", "![a\nb](u)", "![a  \nb](u)", "<br>", "<hr>", "<img src=x>", "<b>", "</b>", "<!-- c -->", "<div>\n", "</div>\n", "\n\n", "[a](javascript:x)", "[a](javascript:x \"t\")", "![a](vbscript:x 't')", "[a][d]\n\n[d]: data:text/html,x \"t\"\n", "[a](file:///x (t))", "[a](<javascript:x> \"t\")", "[*a*](javascript:x \"t\") b", "![a](vbscript:x)", "<javascript:x>", "[a](data:text/html,x)", "[a](data:image/png;base64,x)", "[a](file:///x)", "- [ ] ", "- [x] ", "[^1]", "[^1]: n\n", "|a|b|\n|:-|-:|\n|c|d|\n", "***\n", "`a\nb`", "*a\nb*", "[a\nb](u)", "\x00", "<p\x00>\n", "[a\n](u)", "a\n](u)", "*a\n*", "**a\n**", "~~a\n~~", "[a\n][r]\n\n[r]: /u\n", "![a\n](u)", "`a\n`", "a\n<b>", "a\n[^1]", "a\n![i](u)", "a\n<http://x.y>"}}
 
 func TestOptions(t *testing.T) {
-	kit.Rapid(t, "options", 150000, 1500000, func(t *rapid.T) {
+	kit.Rapid(t, "options", 150000, 6000000, func(t *rapid.T) {
 		cfg := gen.DrawConfig(t, gen.ConfigOpts{PinAlign: true})
 		cfg.XHTML, cfg.HardWraps, cfg.Unsafe = false, false, false
 		if cfg.CJK != 0 {
